@@ -580,24 +580,47 @@ def siblings(F, res):
 
 
 def chain(F, res):
-    f = F.fns[_redeemers_root(F)]
+    """CHAIN: every function of the crate that returns a list of redeemers (`Vec<Redeemer>`: the per-purpose builders, by
+    role) is called where the redeemer map is assembled, and the result of each such call flows into the chain / extend /
+    loop that fills the map.  The assembling function is read with its other helpers inlined."""
+    import re as _re
+    from ..common import with_helpers
+    root = _redeemers_root(F)
+
+    def _lists(g):
+        return bool(_re.search(r"Vec<[^<>]*::Redeemer(<[^<>]*>)?>", g["locals"][0])) and "Option<" not in g["locals"][0].split("Vec<")[0].replace("std::result::Result<", "")
+    R = sorted(p_ for p_, g in F.fns.items() if g["crate"] == "tx3_cardano" and g["def_kind"] != "Closure" and not g.get("impl_trait") and _lists(g) and p_ != root)
+    f = with_helpers(F, root, exclude=tuple(R))
     du = mir.DefUse(f)
-    want = [n for n in ("compile_spend_redeemers", "compile_mint_redeemers", "compile_burn_redeemers", "compile_withdrawal_redeemers") if (C + n) in F.fns]
-    # what reaches the map: provenance of the loop source
     used = set()
     for bi, t in mir.calls(f):
         c = t.get("callee") or ""
         if c in ("std::iter::Iterator::chain", "std::iter::IntoIterator::into_iter", "std::iter::Extend::extend"):
             for a in t["args"]:
                 for o in mir.provenance(f, du, a):
-                    if o.kind == "call" and o.callee.startswith(C):
-                        used.add(o.callee.split("::")[-1])
-    for n in want:
-        key = "compile_redeemers|%s" % n
-        if n in used:
-            res.add([ok("CHAIN", key, where(f), "its result is chained into the redeemer map")])
+                    if o.kind == "call" and o.callee in R:
+                        used.add((o.callee, o.bb))
+    # a list builder that only serves another list builder (a shared `collect(..)` behind the per-purpose ones) is judged there
+    inner = set()
+    for p_ in R:
+        for q in R:
+            if q != p_ and any((t.get("resolved") or t.get("callee")) == p_ for b in with_closures(F, F.fns[q]) for _, t in mir.calls(b)):
+                inner.add(p_)
+    n = 0
+    for p_ in R:
+        sites = [bi for bi, t in mir.calls(f) if (t.get("resolved") or t.get("callee")) == p_]
+        if not sites and p_ in inner:
+            continue
+        n += 1
+        nm = p_.split("::")[-1]
+        key = "compile_redeemers|%s" % nm
+        lost = [bi for bi in sites if (p_, bi) not in used]
+        if sites and not lost:
+            res.add([ok("CHAIN", key, where(f), "its result is chained into the redeemer map (%d call site(s))" % len(sites))])
         else:
-            res.add([finding("CHAIN", key, where(f), "the redeemers built by %s never reach the witness set" % n)])
+            res.add([finding("CHAIN", key, where(f), "the redeemers built by %s never reach the witness set" % nm)])
+    res.count("redeemer list builders", n)
+    res.floor("redeemer list builders", n, 3)
 
 
 def tags(F, res):
